@@ -15,7 +15,7 @@ EXPLANATION = (
     "DifficultyValues::calculate(difficulty parameter, converted map) — the same call as in difficulty(). R3: strains() "
     "sees the same preprocessed map as difficulty() (sibling rule). R4 (recorded): which difficulty_value each skill "
     "resolves to. R5: strains() and difficulty() reach the same set of Difficulty::get_* settings. R6: within a mode all StrainSkill::process bodies are "
-    "the same code (resolved callees / constants / shape), so every skill opens and closes sections at the same boundaries. R7: in every process body the section operations (peak saved, section opened, section end advanced, zeros pushed) are control-dependent on the difficulty objects, constants and the section-end accumulator only — never on the skill's own strain state, which differs between the skills of a mode (non-interference: same objects => same number of sections). R8: every function that feeds two or more skills feeds them under the same dominating conditions (a skill skipped for some settings stops sectioning). Finiteness / non-negativity of peaks and run-length re-expansion are NOT decided.")
+    "the same code (resolved callees / constants / shape), so every skill opens and closes sections at the same boundaries. R7: in every process body the section operations (peak saved, section opened, section end advanced, zeros pushed) are control-dependent on the difficulty objects, constants and the section-end accumulator only — never on the skill's own strain state, which differs between the skills of a mode (non-interference: same objects => same number of sections). R9: difficulty() and strains() hand the shared callees (DifficultyValues::calculate ..) the same numeric expressions. R8: every function that feeds two or more skills feeds them under the same dominating conditions (a skill skipped for some settings stops sectioning). Finiteness / non-negativity of peaks and run-length re-expansion are NOT decided.")
 
 TRAIT = 'any::difficulty::skills::StrainSkill'
 
